@@ -172,7 +172,7 @@ def oracle(case_line, impl_line):
                 "nor the complete new file (fault plan: %s)" % (k - 1, after, plan_txt))
     if not plan and not any(e["kind"] == "rename" and e["result"] == 0 and e["path2"] == "target" for e in ev):
         return ("C19:not-replaced", "fault-free extraction did not rename a temporary file over the target")
-    temps = [n for n in o["names"] if n != "target"]
+    temps = [n for n in o["names"] if n not in ("target", "other.txt")]
     unlink_failed = any(e["kind"] == "unlink" and e["result"] < 0 for e in ev)
     if temps and not unlink_failed:
         return ("C19:temp-left:%s" % fault_site(ev, plan),
@@ -226,6 +226,10 @@ def build_cases(rep, exe, so, variant):
             for code in fault_codes(e["kind"], "quick", b)[:1]:
                 cases.append(mk_case(variant, b, plan + [(j, code)], expect))
                 npairs += 1
+    # the same single faults with a client that does not call finish_entry but goes on to the next header
+    implicit = [mk_case(variant, dict(b, stop=2), plan, expect) for (b, plan, expect, kind) in single
+                if kind in ("write", "pwrite", "lseek", "fstat", "ftruncate", "rename", "fchmod", "fchown", "futimens", "close")]
+    build_cases.implicit = implicit[: (400 if quick else 20000)]
     return cases, len(free), len(single), npairs
 
 def run(rep):
@@ -241,6 +245,24 @@ def run(rep):
         seen.append(il)
         return oracle(c, il)
     st = vlib.correspond(rep, "safeWrite", runner, exe, corpus + cases, oracle=orc, impl_env={"LD_PRELOAD": so}, timeout=3000)
+    # oracle only: implicit finish through the next archive_write_header
+    icases = getattr(build_cases, "implicit", [])
+    nimpl = 0
+    if icases:
+        ipath = vlib.write_cases(icases, "safeWrite-implicit.cases")
+        rc, ilines, ierr = vlib.run_exe(exe, ipath, env={"LD_PRELOAD": so}, timeout=3000)
+        if rc != 0 or len(ilines) != len(icases):
+            k = min(len(ilines), len(icases) - 1)
+            rep.violation("crash:safeWrite:implicit-finish", "harness stopped (rc=%s) on an implicit-finish case" % rc,
+                          dict(case=icases[k], stderr=ierr[-2000:]), found_input=True)
+        for c, il in zip(icases, ilines):
+            nimpl += 1
+            hit = oracle(c, il)
+            if hit and not hit[0].startswith("C19:not-replaced"):
+                rep.violation(hit[0] + ":implicit-finish", hit[1] + " [the failed entry was finished implicitly by the next archive_write_header]",
+                              dict(correspondence="safeWrite", case=c, impl=il[:3000], oracle_only=True,
+                                   cmd="LD_PRELOAD=safeWrite_preload.so harness safeWrite on the case line"), found_input=True)
+    rep.coverage["implicit_finish_runs"] = nimpl
     calls = sum(l.count("(") - 4 for l in seen)
     rep.coverage.update(
         evaluations=len(cases) + len(corpus),
